@@ -12,7 +12,13 @@ use std::sync::atomic::{AtomicU64, Ordering};
 use std::sync::{Arc, Mutex as StdMutex};
 use tokio::io::AsyncWriteExt;
 use tokio::io::{BufReader, BufWriter};
+#[cfg(repe_verif)]
+use crate::verif_io::tcp::{OwnedReadHalf, OwnedWriteHalf};
+#[cfg(repe_verif)]
+use crate::verif_io::{TcpStream, ToSocketAddrs};
+#[cfg(not(repe_verif))]
 use tokio::net::tcp::{OwnedReadHalf, OwnedWriteHalf};
+#[cfg(not(repe_verif))]
 use tokio::net::{TcpStream, ToSocketAddrs};
 use tokio::sync::{Mutex, oneshot};
 use tokio::task::JoinError;
@@ -810,6 +816,14 @@ impl AsyncClient {
         }
 
         Ok(Some(response))
+    }
+}
+
+#[cfg(repe_verif)]
+impl AsyncClient {
+    /// Verification only: number of calls currently registered as awaiting a response.
+    pub fn verif_pending_len(&self) -> usize {
+        lock_pending_map(&self.inner.pending).len()
     }
 }
 
